@@ -43,6 +43,32 @@ def _design(ctx, name):
     return name, r
 
 
+def replay_shapes(ctx, drv, cfg, prefix, only_search=False):
+    """Emit shapes at the real constants (mode `real`) and replay them on real fractions in four forms.
+    Also used by C02 (search answers over posting lists that span several LID / ID / token blocks)."""
+    cf = os.path.join(ctx.scratch, "shapes-%s.jsonl" % prefix)
+    r = vlib.run_tlc(ctx, "IndexLayout.tla", cfg, case_file=cf, env={"C03_SEED": ctx.seed}, timeout=3300)
+    if r.violated:
+        raise vlib.Infra("TLC: %s violated while emitting real shapes" % r.violated)
+    vlib.require_tlc_ok(r, "IndexLayout real emission")
+    if r.ncases == 0:
+        raise vlib.Infra("no shapes emitted")
+    mism, summ, _ = vlib.run_cases(ctx, drv, ["-workers", str(max(4, vlib.NCPU))], cf, label="shapes", chunk=200, timeout=3400)
+    for m in mism:
+        what = str(m.get("what", ""))
+        if m.get("path") == "seal" and m.get("f9"):
+            sig = "%s:finding9:seal-panic" % prefix
+        elif what == "crash":
+            sig = "%s:crash:%s" % (prefix, m.get("form"))
+        else:
+            kind = re.split(r"[ :\[]", what.strip(), 1)[0][:24]       # ids / total / histogram / agg / fetch / panic / ...
+            if only_search and kind in ("fetch", "layout"):
+                continue
+            sig = "%s:%s:%s:%s" % (prefix, m.get("form"), m.get("path"), kind)
+        ctx.violation(sig, m, what="shape %s, form %s via %s: %s" % (m.get("i"), m.get("form"), m.get("path"), what[:300]))
+    return cf, summ
+
+
 def run(ctx):
     drv = vlib.build_driver("shapes")
     quick = ctx.quick()
@@ -60,25 +86,7 @@ def run(ctx):
         raise vlib.Infra("self-test failed: TokensOK is not violated by the as-is blockSize formula (violated=%s)" % r.violated)
     ctx.cov["selftest"] = "IndexLayout_tokens_asis9.cfg (Finding9 = TRUE) violates TokensOK as required"
     # 2. shapes at the real constants -> real fractions in every form
-    cf = os.path.join(ctx.scratch, "shapes.jsonl")
-    r = vlib.run_tlc(ctx, "IndexLayout.tla", "IndexLayout_real.cfg" if quick else "IndexLayout_realth.cfg",
-                     case_file=cf, env={"C03_SEED": ctx.seed}, timeout=3300)
-    if r.violated:
-        raise vlib.Infra("TLC: %s violated while emitting real shapes" % r.violated)
-    vlib.require_tlc_ok(r, "IndexLayout real emission")
-    if r.ncases == 0:
-        raise vlib.Infra("no shapes emitted")
-    mism, summ, _ = vlib.run_cases(ctx, drv, ["-workers", str(max(4, vlib.NCPU))], cf, label="shapes", chunk=200, timeout=3400)
-    for m in mism:
-        what = str(m.get("what", ""))
-        if m.get("path") == "seal" and m.get("f9"):
-            sig = "c03:finding9:seal-panic"
-        elif what == "crash":
-            sig = "c03:crash:%s" % m.get("form")
-        else:
-            kind = re.split(r"[ :\[]", what.strip(), 1)[0][:24]       # ids / total / histogram / agg / fetch / panic / ...
-            sig = "c03:%s:%s:%s" % (m.get("form"), m.get("path"), kind)
-        ctx.violation(sig, m, what="shape %s, form %s via %s: %s" % (m.get("i"), m.get("form"), m.get("path"), what[:300]))
+    cf, summ = replay_shapes(ctx, drv, "IndexLayout_real.cfg" if quick else "IndexLayout_realth.cfg", "c03")
     nshape = nprobe = 0
     with open(cf) as fh:
         for ln in fh:
